@@ -27,7 +27,10 @@ The calculus: every function is `fun f(_ x: Int, _ y: Int): Int` on one composit
 `emit E(id: e)` or boolean tests over `x y self.a self.b result before(..)` with `+ - * /` (division by
 zero is the only run-time fault of an expression).  Left out: other value types, resources (`result` as a
 reference), void functions, initializer conditions, conditions of global functions and transactions,
-interfaces declared in other contracts, condition messages.
+condition messages.  Where a declaration lives is not part of the calculus: the stream also renders a
+program as two deployed contracts (interfaces in one, the composite in another at the same or another
+address) and a script (`mprog`) — the before-variable names are program-wide unique in /repo
+(prefix = location ID), which is what `shiftI` stands for.
 Core Lean only.
 -/
 namespace Verif.Model.Lang3.Cond
